@@ -167,16 +167,11 @@ Definition exit_code (d : diag) : nat :=
   | _ => 1
   end.
 
-(* places where the Go code can raise a runtime panic *)
-Inductive psite :=
-| PManualParamName         (* mapper/manual.go:105  param.Names[0] of an unnamed parameter *)
-| PManualRecvName          (* mapper/manual.go:120  recv.Names[0] of an unnamed receiver *)
-| PManualNilBody           (* mapper/manual.go:151  ast.Inspect(funcDecl.Body) with a nil body *)
-| PCtorNilBody             (* mapper/ctor.go:193    ast.Inspect(fn.Body) with a nil body *)
-| PCtorParamName           (* mapper/ctor.go:64     p.Names[0] of an unnamed parameter *)
-| PSetterNoParam           (* mapper/methods.go:90  params.List[0] of an empty parameter list *)
-| PGetterNoResult          (* mapper/methods.go:107 results.List[0] of an empty result list *)
-| PTestFileNoPos.          (* shoot/generatorbase.go:255 Fset.File(file.Pos()).Name() on a file without package clause *)
+(* places where the Go code can raise a runtime panic.  After the repairs 29dcb84, b905249,
+   1762519 and 1e0ce7d (TestFile on a file without package clause; unnamed parameters and
+   receivers, bodiless declarations and accessor arities in the mapper) none is known: the type
+   is empty, [Panic] stays in [stop] so that a panic of the binary has something to disagree with *)
+Inductive psite := .
 
 (* unbounded recursions *)
 Inductive lsite :=
@@ -307,7 +302,8 @@ Record input := {
   i_extra : list (string * entry);        (* other entries of the package directory, sorted by name *)
   i_dests : list (string * dest);         (* spellings (after FixPath) of -path that exist *)
   i_render : list (string * rclass);      (* type name -> render class; ROk when absent *)
-  i_merge_ok : bool                       (* MergeSources succeeds *)
+  i_merge_ok : bool;                      (* MergeSources succeeds *)
+  i_foreign : list (string * list tspec)  (* imported packages whose types are embedded: local name -> package-level type specs *)
 }.
 
 (* ------------------------------------------------ flag.FlagSet.Parse *)
@@ -619,7 +615,10 @@ Fixpoint find_tspec (n : string) (l : list tspec) : option tspec :=
   end.
 
 (* g.TestFile *)
-Definition test_file (fl : flags) (f : file) : bool := (fl_file fl =? "") || (f_name f =? fl_file fl).
+(* g.TestFile: a file without package clause has no position (Fset.File(file.Pos()) == nil) and is
+   never the requested file *)
+Definition test_file (fl : flags) (f : file) : bool :=
+  (fl_file fl =? "") || (negb (f_pkg f =? "") && (f_name f =? fl_file fl)).
 
 Definition is_struct (t : tspec) : bool := match ts_body t with BStruct _ => true | _ => false end.
 
@@ -664,37 +663,70 @@ Fixpoint go_file (n : string) (fs : list file) : string :=
 
 (* ---------------------------------------------------------------- new *)
 
-(* the struct a (possibly pointer) embedded field expands to in
-   expandIfStruct: *types.Pointer looks at Elem().Underlying(), *types.Named at
-   Underlying(); an embedded alias is a *types.Alias and matches no case *)
-Definition embedded_struct (tops : list tspec) (t : texpr) : option (list field) :=
-  let fuel := S (List.length tops) in
-  match t with
-  | TId n => match find_tspec n tops with
-             | Some s => if ts_alias s then None else under_struct fuel tops n
-             | None => None
-             end
-  | TStar (TId n) => under_struct fuel tops n
-  | _ => None
+(* expandIfStruct works on go/types: an embedded field may name a type of the package (also an
+   instantiated generic one: Node[T]) or of an imported package (ext.Loop).  A scope is the list of
+   package-level type specs of one package; [fo] maps the local names of the imported packages to
+   their scopes. *)
+Definition foreign := list (string * list tspec).
+
+Definition core (t : texpr) : texpr := match t with TStar x => x | x => x end.
+Definition is_star (t : texpr) : bool := match t with TStar _ => true | _ => false end.
+Definition local_name (t : texpr) : option string :=
+  match t with TId n => Some n | TGen n _ => Some n | _ => None end.
+Definition sel_name (t : texpr) : option (string * string) :=
+  match t with TSel q n => Some (q, n) | _ => None end.
+
+(* the struct named n in a scope.  *types.Named looks at Underlying(); *types.Pointer at
+   Elem().Underlying(); an embedded alias is a *types.Alias and matches no case of the switch,
+   a pointer to an alias does (Underlying() follows the alias) *)
+Definition struct_in (scope : list tspec) (ptr : bool) (n : string) : option (list field * list tspec) :=
+  match find_tspec n scope with
+  | None => None
+  | Some s =>
+      if negb ptr && ts_alias s then None
+      else match under_struct (S (List.length scope)) scope n with
+           | Some fs => Some (fs, scope)
+           | None => None
+           end
+  end.
+
+(* the struct an embedded field of type t (written in scope tops) expands to, with the scope its
+   own fields are written in *)
+Definition embedded_struct (fo : foreign) (tops : list tspec) (t : texpr) : option (list field * list tspec) :=
+  match local_name (core t) with
+  | Some n => struct_in tops (is_star t) n
+  | None =>
+      match sel_name (core t) with
+      | Some (q, n) => match assoc q fo with
+                       | Some ft => struct_in ft (is_star t) n
+                       | None => None
+                       end
+      | None => None
+      end
   end.
 
 Definition is_embedded (f : field) : bool := match fd_names f with [] => true | _ => false end.
 
+Definition foreign_size (fo : foreign) : nat := fold_right (fun x n => List.length (snd x) + n) 0 fo.
+
+(* more than the longest chain of distinct type specs *)
+Definition expand_fuel (fo : foreign) (tops : list tspec) : nat := foreign_size fo + List.length tops + 3.
+
 (* expandIfStruct / extractStructFields (both generators): fuel bounds the
    nesting depth; running out of it is the unbounded recursion *)
-Fixpoint expand (site : lsite) (fuel : nat) (tops : list tspec) (t : texpr) : res unit :=
-  match embedded_struct tops t with
+Fixpoint expand (site : lsite) (fuel : nat) (fo : foreign) (tops : list tspec) (t : texpr) : res unit :=
+  match embedded_struct fo tops t with
   | None => Ok tt
-  | Some fs =>
+  | Some (fs, tops') =>
       match fuel with
       | O => Stop (Diverge site)
-      | S k => each (fun f => if is_embedded f then expand site k tops (fd_type f) else Ok tt) fs
+      | S k => each (fun f => if is_embedded f then expand site k fo tops' (fd_type f) else Ok tt) fs
       end
   end.
 
 (* constructor.extractTopFiels *)
-Definition new_top_field (fl : flags) (fuel : nat) (tops : list tspec) (f : field) : res unit :=
-  if is_embedded f then expand LNewEmbed fuel tops (fd_type f)
+Definition new_top_field (fl : flags) (fuel : nat) (fo : foreign) (tops : list tspec) (f : field) : res unit :=
+  if is_embedded f then expand LNewEmbed fuel fo tops (fd_type f)
   else each (fun name =>
                if String.prefix "_" name then Ok tt
                else if fd_newdash f then Ok tt
@@ -703,24 +735,23 @@ Definition new_top_field (fl : flags) (fuel : nat) (tops : list tspec) (f : fiel
 
 (* parseFields: the ast.Inspect walk with testNode(typeName, n); returns whether a
    type was found.  typeName "" matches every name (testNode skips the name test) *)
-Fixpoint new_walk (fl : flags) (fuel : nat) (tops : list tspec) (T : string) (l : list (tspec * bool)) (found : bool)
+Fixpoint new_walk (fl : flags) (fuel : nat) (fo : foreign) (tops : list tspec) (T : string) (l : list (tspec * bool)) (found : bool)
   : res bool :=
   match l with
   | [] => Ok found
   | (t, _) :: r =>
-      if negb (T =? "") && negb (ts_name t =? T) then new_walk fl fuel tops T r found
+      if negb (T =? "") && negb (ts_name t =? T) then new_walk fl fuel fo tops T r found
       else match ts_body t with
            | BStruct fs =>
-               if String.prefix "_" (ts_name t) then new_walk fl fuel tops T r found
-               else do_ each (new_top_field fl fuel tops) fs; new_walk fl fuel tops T r true
-           | _ => if T =? "" then new_walk fl fuel tops T r found else fatal DNewNotStruct
+               if String.prefix "_" (ts_name t) then new_walk fl fuel fo tops T r found
+               else do_ each (new_top_field fl fuel fo tops) fs; new_walk fl fuel fo tops T r true
+           | _ => if T =? "" then new_walk fl fuel fo tops T r found else fatal DNewNotStruct
            end
   end.
 
-Definition new_make (fl : flags) (ld : loaded) (T : string) : res bool :=
+Definition new_make (fo : foreign) (fl : flags) (ld : loaded) (T : string) : res bool :=
   let tops := top_tspecs (ld_files ld) in
-  let fuel := S (List.length tops) in
-  do found <- new_walk fl fuel tops T (flat_map file_tspecs (ld_files ld)) false;
+  do found <- new_walk fl (expand_fuel fo tops) fo tops T (flat_map file_tspecs (ld_files ld)) false;
   do_ guard found DNewNotExists;
   Ok true.
 
@@ -965,7 +996,7 @@ Definition map_test (T : string) (t : tspec) : bool :=
 
 (* parseFields: every matching spec has its embedded fields expanded; returns
    (found, names of the unexported fields at top level) *)
-Fixpoint map_walk (fuel : nat) (tops : list tspec) (T : string) (l : list (tspec * bool)) (found : bool)
+Fixpoint map_walk (fuel : nat) (fo : foreign) (tops : list tspec) (T : string) (l : list (tspec * bool)) (found : bool)
   : res bool :=
   match l with
   | [] => Ok found
@@ -973,16 +1004,16 @@ Fixpoint map_walk (fuel : nat) (tops : list tspec) (T : string) (l : list (tspec
       if map_test T t then
         match ts_body t with
         | BStruct fs =>
-            do_ each (fun f => if is_embedded f then expand LMapEmbed fuel tops (fd_type f) else Ok tt) fs;
-            map_walk fuel tops T r true
-        | _ => map_walk fuel tops T r found
+            do_ each (fun f => if is_embedded f then expand LMapEmbed fuel fo tops (fd_type f) else Ok tt) fs;
+            map_walk fuel fo tops T r true
+        | _ => map_walk fuel fo tops T r found
         end
-      else map_walk fuel tops T r found
+      else map_walk fuel fo tops T r found
   end.
 
-Definition map_parse_fields (files : list file) (T : string) : res bool :=
+Definition map_parse_fields (fo : foreign) (files : list file) (T : string) : res bool :=
   let tops := top_tspecs files in
-  map_walk (S (List.length tops)) tops T (flat_map file_tspecs files) false.
+  map_walk (expand_fuel fo tops) fo tops T (flat_map file_tspecs files) false.
 
 Definition funcs_of (files : list file) : list (file * fdecl) :=
   flat_map (fun f => flat_map (fun d => match d with DFunc fd => [(f, fd)] | _ => [] end) (f_decls f)) files.
@@ -990,112 +1021,10 @@ Definition funcs_of (files : list file) : list (file * fdecl) :=
 Definition no_results (f : fdecl) : bool :=
   match fn_results f with None => true | Some [] => true | Some _ => false end.
 
-(* types.AssignableTo(T, interface{ ShootNew() }): a method ShootNew() with a
-   value receiver declared on T (promotion through embedded fields is outside
-   the grammar) *)
-Definition implements_shootnew (files : list file) (T : string) : bool :=
-  existsb (fun '(_, f) =>
-             (fn_name f =? "ShootNew") &&
-             match fn_recv f with
-             | Some [r] => match pa_type r with TId n => n =? T | _ => false end
-             | _ => false
-             end &&
-             match fn_params f with [] => true | _ => false end && no_results f) (funcs_of files).
-
-(* mapper.parseCtors(pkg, theTyp, typName) *)
-Definition map_ctors (files : list file) (T : string) : res unit :=
-  each (fun '(_, f) =>
-          match fn_recv f with
-          | Some _ => Ok tt
-          | None =>
-              if negb (fn_name f =? "New" ++ T) then Ok tt else
-              match fn_results f with
-              | Some [r] =>
-                  match pa_type r with
-                  | TStar (TId n) =>
-                      if negb (n =? T) then Ok tt else
-                      match fn_params f with
-                      | [] => Ok tt
-                      | ps =>
-                          (* extractParamToFieldMap: ast.Inspect(fn.Body, ...) *)
-                          match fn_body f with
-                          | None => Stop (Panic PCtorNilBody)
-                          | Some _ =>
-                              each (fun p => match pa_names p with
-                                             | [] => Stop (Panic PCtorParamName)
-                                             | _ => Ok tt
-                                             end) ps
-                          end
-                      end
-                  | _ => Ok tt
-                  end
-              | _ => Ok tt
-              end
-          end) (funcs_of files).
-
-(* names of all fields of a struct, promoted ones included (parseFields flattens
-   the embedded structs) *)
-Fixpoint flat_names (fuel : nat) (tops : list tspec) (fs : list field) : list string :=
-  match fuel with
-  | O => []
-  | S k => flat_map (fun f => if is_embedded f
-                              then match embedded_struct tops (fd_type f) with
-                                   | Some fs' => flat_names k tops fs'
-                                   | None => []
-                                   end
-                              else fd_names f) fs
-  end.
-
-(* g.unexportedFields after parseFields(T) *)
-Definition unexported_fields (files : list file) (T : string) : list string :=
-  let tops := top_tspecs files in
-  match find_tspec T tops with
-  | Some t => match ts_body t with
-              | BStruct fs => filter (fun n => negb (is_exported n)) (flat_names (S (List.length tops)) tops fs)
-              | _ => []
-              end
-  | None => []
-  end.
-
-Definition recv_base (r : param) : texpr :=
-  match pa_type r with TStar x => x | x => x end.
-
-(* mapper.parseGetSetMethods(pkg, stTyp, unexportedFields, ...) *)
-Definition map_accessors (files : list file) (T : string) : res unit :=
-  let ufs := unexported_fields files T in
-  match ufs with
-  | [] => Ok tt
-  | _ =>
-    let super := (map to_pascal_case ufs ++ map (fun n => ("Set" ++ to_pascal_case n)%string) ufs)%list in
-    each (fun '(_, f) =>
-            match fn_recv f with
-            | Some (r :: _) =>
-                if negb (mem (fn_name f) super) then Ok tt else
-                match recv_base r with
-                | TId n =>
-                    if negb (n =? T) then Ok tt else
-                    if String.prefix "Set" (fn_name f) then
-                      if negb (no_results f) then Ok tt
-                      else match fn_params f with
-                           | [] => Stop (Panic PSetterNoParam)
-                           | [_] => Ok tt
-                           | _ => Ok tt                      (* len(params.List) > 1: continue *)
-                           end
-                    else
-                      match fn_params f with
-                      | _ :: _ => Ok tt
-                      | [] =>
-                          match fn_results f with
-                          | None => Ok tt
-                          | Some [] => Stop (Panic PGetterNoResult)
-                          | Some _ => Ok tt
-                          end
-                      end
-                | _ => Ok tt
-                end
-            | _ => Ok tt
-            end) (funcs_of files)
-  end.
+(* parseCtors (constructor NewT of a shoot-new type) and parseMethods/parseGetSetMethods (its
+   accessors) have no exit: an unnamed constructor parameter is bound to no field, a declaration
+   without body binds nothing, SetX without exactly one parameter and X() without exactly one
+   result are skipped.  They are therefore not part of this model. *)
 
 (* isWriteMethod / isReadMethod *)
 Definition reserved (keys : list string) (key name : string) : bool :=
@@ -1134,23 +1063,11 @@ Fixpoint map_manual (key T D : string) (l : list (file * fdecl)) (w r : bool) : 
                   if is_write then
                     if negb (is_same && is_ptr) then fatal DMapWriteParam
                     else if w then fatal DMapDupWrite
-                    else match pa_names p with
-                         | [] => Stop (Panic PManualParamName)
-                         | _ => match fn_body fd with
-                                | None => Stop (Panic PManualNilBody)
-                                | Some _ => map_manual key T D rest true r
-                                end
-                         end
+                    else map_manual key T D rest true r     (* an unnamed parameter / a missing body assigns nothing *)
                   else
                     if negb is_same then fatal DMapReadParam
                     else if r then fatal DMapDupRead
-                    else match pa_names recv with
-                         | [] => Stop (Panic PManualRecvName)
-                         | _ => match fn_body fd with
-                                | None => Stop (Panic PManualNilBody)
-                                | Some _ => map_manual key T D rest w true
-                                end
-                         end
+                    else map_manual key T D rest w true
               | _ => continue_                        (* warning: incorrect signature *)
               end
           | x =>
@@ -1159,18 +1076,12 @@ Fixpoint map_manual (key T D : string) (l : list (file * fdecl)) (w r : bool) : 
       end
   end.
 
-Definition map_make (fl : flags) (ld : loaded) (T : string) : res bool :=
+Definition map_make (fo : foreign) (fl : flags) (ld : loaded) (T : string) : res bool :=
   let D := match assoc T (rev (fl_to fl)) with Some d => if d =? "" then T else d | None => T end in
-  do s <- map_parse_fields (ld_files ld) T;
+  do s <- map_parse_fields fo (ld_files ld) T;
   do_ guard s DMapSrcNotExists;
-  do d <- map_parse_fields (ld_dest ld) D;
+  do d <- map_parse_fields fo (ld_dest ld) D;
   if negb d then (if fl_specified fl then fatal DMapDestNotExists else Ok false) else
-  (* parseCtors *)
-  do_ (if implements_shootnew (ld_files ld) T then map_ctors (ld_files ld) T else Ok tt);
-  do_ (if implements_shootnew (ld_dest ld) D then map_ctors (ld_dest ld) D else Ok tt);
-  (* parseMethods *)
-  do_ (if implements_shootnew (ld_files ld) T then map_accessors (ld_files ld) T else Ok tt);
-  do_ (if implements_shootnew (ld_dest ld) D then map_accessors (ld_dest ld) D else Ok tt);
   (* parseManual *)
   let key := if fl_alias fl =? "" then ld_destname ld else fl_alias fl in
   do_ map_manual key T D (funcs_of (ld_files ld)) false false;
@@ -1191,10 +1102,10 @@ Definition has_dangling_go (i : input) (fl : flags) : bool :=
 
 Definition make_data (i : input) (fl : flags) (ld : loaded) (T : string) : res bool :=
   match fl_sub fl with
-  | CNew => new_make fl ld T
+  | CNew => new_make (i_foreign i) fl ld T
   | CEnum => enum_make fl ld T
   | CRest => rest_make (has_dangling_go i fl) ld T
-  | CMap => map_make fl ld T
+  | CMap => map_make (i_foreign i) fl ld T
   end.
 
 Definition list_types (fl : flags) (ld : loaded) : list string :=
@@ -1222,12 +1133,7 @@ Definition confirm_types (fl : flags) (ld : loaded) : res (list string * list (s
     do_ each (fun T => if fl_file fl =? "" then Ok tt
                        else guard (fl_file fl =? go_file T (ld_files ld)) DNotInFile) (fl_types fl);
     Ok (fl_types fl, map (fun T => (T, go_file T (ld_files ld))) (fl_types fl))
-  else
-    (* ListTypes calls g.TestFile on every file; with -file it dereferences the token.File of
-       file.Pos(), which is nil for a file without package clause *)
-    if negb (fl_file fl =? "") && existsb (fun f => f_pkg f =? "") (ld_files ld)
-    then Stop (Panic PTestFileNoPos)
-    else Ok (list_types fl ld, []).
+  else Ok (list_types fl ld, []).
 
 Definition render_of (i : input) (T : string) : rclass :=
   match assoc T (i_render i) with Some r => r | None => ROk end.
@@ -1433,8 +1339,11 @@ Definition no_fault (_ : nat) : bool := true.
    proofs: the correspondence check evaluates them on every sampled case to
    measure how much of the stream lies inside the theorems' domain. *)
 
-Definition tname (t : texpr) : option string :=
-  match t with TId n => Some n | TStar (TId n) => Some n | _ => None end.
+(* the type of the package an embedded field names (pointer and type arguments stripped) *)
+Definition tname (t : texpr) : option string := local_name (core t).
+(* the imported type an embedded field names *)
+Definition tsel (t : texpr) : option (string * string) :=
+  match local_name (core t) with Some _ => None | None => sel_name (core t) end.
 
 (* position of the first type spec named n *)
 Fixpoint pos (n : string) (l : list tspec) : option nat :=
@@ -1465,31 +1374,24 @@ Fixpoint specs_ok (tops : list tspec) (p : nat) (l : list tspec) : bool :=
 (* "declared before use": every embedded field and every `type A B` refers to an earlier declaration *)
 Definition ordered (tops : list tspec) : bool := specs_ok tops 0 tops.
 
-(* function declarations on which the mapper's syntactic inspections are safe *)
-Definition named (ps : list param) : bool :=
-  forallb (fun p => match pa_names p with [] => false | _ => true end) ps.
-
-Definition safe_fdecl (f : fdecl) : bool :=
-  match fn_body f with Some _ => true | None => false end &&
-  named (fn_params f) &&
-  match fn_recv f with Some r => named r | None => true end &&
-  match fn_results f with Some [] => false | _ => true end &&
-  (negb (String.prefix "Set" (fn_name f)) ||
-   match fn_recv f, fn_params f with Some _, [] => false | _, _ => true end).
-
-Definition safe_funcs (files : list file) : bool :=
-  forallb (fun x => safe_fdecl (snd x)) (funcs_of files).
-
-(* every Go file of the package has a package clause *)
-Definition has_pkg_clauses (files : list file) : bool := forallb (fun f => negb (f_pkg f =? "")) files.
-
 Definition is_file (e : entry) : bool := match e with EFile _ => true | _ => false end.
 Definition files_only (d : list (string * entry)) : bool := forallb (fun x => is_file (snd x)) d.
 
+(* no embedded field of a struct of this scope names an imported type *)
+Definition sel_free (tops : list tspec) : bool :=
+  forallb (fun s => match ts_body s with
+                    | BStruct fs => forallb (fun f => negb (is_embedded f) ||
+                                                      match tsel (fd_type f) with None => true | Some _ => false end) fs
+                    | _ => true
+                    end) tops.
+
+(* the imported packages: declared before use, and their structs embed no imported type themselves *)
+Definition foreign_ok (fo : foreign) : bool := forallb (fun x => ordered (snd x) && sel_free (snd x)) fo.
+
 (* the guard of C18_always_a_deliberate_exit, decidable form *)
 Definition input_ok (i : input) : bool :=
-  ordered (top_tspecs (i_files i)) && safe_funcs (i_files i) && has_pkg_clauses (i_files i) &&
+  ordered (top_tspecs (i_files i)) && foreign_ok (i_foreign i) &&
   forallb (fun x => match snd x with
-                    | DestPkg _ fs => ordered (top_tspecs fs) && safe_funcs fs
+                    | DestPkg _ fs => ordered (top_tspecs fs)
                     | DestFile => true
                     end) (i_dests i).
